@@ -32,6 +32,7 @@ import (
 	"testing"
 
 	sdkmath "cosmossdk.io/math"
+	storetypes "cosmossdk.io/store/types"
 	sdk "github.com/cosmos/cosmos-sdk/types"
 	banktypes "github.com/cosmos/cosmos-sdk/x/bank/types"
 	stakingtypes "github.com/cosmos/cosmos-sdk/x/staking/types"
@@ -387,8 +388,53 @@ func frameNodes(p *program, tr *evmx.Tracer) map[int]*evmx.Node {
 }
 
 func (e *env) run(pctx sdk.Context, p *program, gasLimit uint64, traced bool) *runObs {
+	return e.runWith(pctx, p, gasLimit, traced, nil)
+}
+
+// faultMeter is an SDK gas meter that never runs out but panics ONCE, at its at-th consultation (every store access
+// consults it): an injected Go panic at an arbitrary point of the transaction — inside a keeper call of a native action,
+// inside the StateDB, anywhere.  Nothing in the EVM keeper, the precompiles or the dispatchers recovers, so it must
+// reach the caller (baseapp, which drops the transaction).
+type faultMeter struct {
+	n, at int
+	fired bool
+}
+
+func (m *faultMeter) GasConsumed() storetypes.Gas        { return 0 }
+func (m *faultMeter) GasConsumedToLimit() storetypes.Gas { return 0 }
+func (m *faultMeter) GasRemaining() storetypes.Gas       { return 1 << 62 }
+func (m *faultMeter) Limit() storetypes.Gas              { return 0 }
+func (m *faultMeter) RefundGas(storetypes.Gas, string)   {}
+func (m *faultMeter) IsPastLimit() bool                  { return false }
+func (m *faultMeter) IsOutOfGas() bool                   { return false }
+func (m *faultMeter) String() string                     { return "faultMeter" }
+func (m *faultMeter) ConsumeGas(_ storetypes.Gas, d string) {
+	m.n++
+	if m.n == m.at && !m.fired {
+		m.fired = true
+		if m.at%2 == 0 {
+			panic(storetypes.ErrorOutOfGas{Descriptor: "injected fault at " + d})
+		}
+		panic("injected fault at " + d)
+	}
+}
+
+// runWith: fm != nil runs the transaction under a fault meter; a panic that reaches us is reported as status "panic"
+// (the state of such a run is never looked at: the transaction is dropped)
+func (e *env) runWith(pctx sdk.Context, p *program, gasLimit uint64, traced bool, fm *faultMeter) (o *runObs) {
 	cctx, _ := pctx.CacheContext()
-	o := &runObs{}
+	o = &runObs{}
+	if fm != nil {
+		cctx = cctx.WithGasMeter(fm)
+		defer func() {
+			if r := recover(); r != nil {
+				if !fm.fired {
+					panic(r)
+				}
+				o = &runObs{status: "panic"}
+			}
+		}()
+	}
 	if p.direct && len(p.root) == 0 { // reference run of a direct call that was not kept: no transaction at all
 		o.status = "ok"
 		o.dump = e.dumpCosmos(cctx)
@@ -854,6 +900,11 @@ func TestC09(t *testing.T) {
 		}
 		refCache := map[string]*runObs{}
 		before := e.dumpCosmos(pctx)
+		nFault := hx.N(3, 10)
+		if pi < len(dir) {
+			nFault = hx.N(8, 20)
+		}
+		e.faults(t, out, rng, p, pctx, before, refCache, nFault)
 		for _, g := range gl {
 			real := e.run(pctx, p, g, false)
 			obs := real.status
@@ -870,37 +921,8 @@ func TestC09(t *testing.T) {
 				out.Violate(fmt.Sprintf("traced and untraced runs of the same signed tx differ: %s/%s markers %s/%s stores %v", real.status, trc.status, ints(real.markers), ints(trc.markers), hx.DiffDump(trc.dump, real.dump)))
 			}
 			// reference: program pruned to the kept frames, ample gas
-			pr := prune(p, trc.tr)
-			key := fmt.Sprint(trc.kept, "|", ints(real.markers), "|", len(pr.root))
-			var keptFrames []string
 			fn := frameNodes(p, trc.tr)
-			for i, n := range fn {
-				if trc.tr.Kept(i) {
-					keptFrames = append(keptFrames, fmt.Sprint(n.ID))
-				}
-			}
-			sort.Strings(keptFrames)
-			key += strings.Join(keptFrames, ",")
-			ref, ok := refCache[key]
-			if !ok {
-				rctx, _ := e.s.Ctx.CacheContext()
-				if err := e.install(rctx, pr); err != nil {
-					t.Fatal(err)
-				}
-				ref = e.run(rctx, pr, ampleGL, false)
-				refCache[key] = ref
-			}
-			refs := "same"
-			if ch := hx.DiffDump(ref.dump, real.dump); len(ch) > 0 {
-				refs = "diff:" + strings.Join(ch, ",")
-			} else if ref.logs != real.logs {
-				refs = "diff:logs"
-			} else if ints(ref.markers) != ints(real.markers) {
-				refs = "diff:markers"
-			}
-			if real.status == "ok" && ref.status != "ok" {
-				refs = "diff:reference-run-" + ref.status
-			}
+			refs := e.reference(t, p, real, trc, refCache)
 			rootUsed := uint64(0)
 			if len(trc.tr.Frames) > 0 {
 				rootUsed = trc.tr.Frames[0].GasUsed
@@ -994,6 +1016,78 @@ func TestC09(t *testing.T) {
 var effectStore = map[string]string{"delegateV2": "staking", "undelegateV2": "staking", "redelegateV2": "staking", "withdraw": "distribution",
 	"approveShares": "staking", "transferShares": "staking", "transferFromShares": "staking", "crossChain": "eth", "cancelSendToExternal": "eth",
 	"increaseBridgeFee": "eth", "bridgeCall": "eth", "executeClaim": "eth"}
+
+// reference compares a real run with the REFERENCE run (ample gas, no faults) of the program pruned to exactly the frames
+// the traced twin of the real run kept: "same" or "diff:<what>"
+func (e *env) reference(t *testing.T, p *program, real, trc *runObs, refCache map[string]*runObs) string {
+	pr := prune(p, trc.tr)
+	key := fmt.Sprint(trc.kept, "|", ints(real.markers), "|", len(pr.root))
+	var keptFrames []string
+	for i, n := range frameNodes(p, trc.tr) {
+		if trc.tr.Kept(i) {
+			keptFrames = append(keptFrames, fmt.Sprint(n.ID))
+		}
+	}
+	sort.Strings(keptFrames)
+	key += strings.Join(keptFrames, ",")
+	ref, ok := refCache[key]
+	if !ok {
+		rctx, _ := e.s.Ctx.CacheContext()
+		if err := e.install(rctx, pr); err != nil {
+			t.Fatal(err)
+		}
+		ref = e.run(rctx, pr, ampleGL, false)
+		refCache[key] = ref
+	}
+	refs := "same"
+	if ch := hx.DiffDump(ref.dump, real.dump); len(ch) > 0 {
+		refs = "diff:" + strings.Join(ch, ",")
+	} else if ref.logs != real.logs {
+		refs = "diff:logs"
+	} else if ints(ref.markers) != ints(real.markers) {
+		refs = "diff:markers"
+	}
+	if real.status == "ok" && ref.status != "ok" {
+		refs = "diff:reference-run-" + ref.status
+	}
+	return refs
+}
+
+// faults: the program at ample gas with a Go panic injected at random store accesses.  Either the panic reaches the
+// caller (the transaction is dropped as a whole) or — if something recovered it — the transaction must still be
+// all-or-nothing: failed => no Cosmos-side change, succeeded => exactly the effects of the kept frames.
+func (e *env) faults(t *testing.T, out *hx.Out, rng *rand.Rand, p *program, pctx sdk.Context, before map[string]string, refCache map[string]*runObs, n int) {
+	probe := &faultMeter{at: -1}
+	if o := e.runWith(pctx, p, ampleGL, false, probe); o.status == "panic" || probe.n == 0 {
+		return
+	}
+	for k := 0; k < n; k++ {
+		at := 1 + rng.Intn(probe.n)
+		fm := &faultMeter{at: at}
+		real := e.runWith(pctx, p, ampleGL, false, fm)
+		switch {
+		case !fm.fired:
+			out.Count("fault:not-reached")
+		case real.status == "panic":
+			out.Count("fault:panic-reached-the-caller(transaction dropped)")
+		default:
+			out.Count("fault:recovered-inside:" + real.status)
+			if real.status != "ok" {
+				if ch := hx.DiffDump(before, real.dump); len(ch) > 0 {
+					out.Violate(fmt.Sprintf("a panic injected at store access %d was recovered inside the transaction, which then failed (%s) and left Cosmos-side effects in %v", at, real.status, ch))
+				}
+				continue
+			}
+			trc := e.runWith(pctx, p, ampleGL, true, &faultMeter{at: at})
+			if trc.status == "panic" {
+				continue
+			}
+			if refs := e.reference(t, p, real, trc, refCache); refs != "same" {
+				out.Violate(fmt.Sprintf("a panic injected at store access %d was recovered inside the transaction, which succeeded with a Cosmos state that differs from the effects of exactly the kept precompile calls (%s)", at, refs))
+			}
+		}
+	}
+}
 
 // directGasPoints: around the intrinsic gas, around intrinsic + RequiredGas, ample, a few random
 func (e *env) directGasPoints(rng *rand.Rand, p *program, intrinsic uint64) []uint64 {
